@@ -698,6 +698,13 @@ class NMRCalculator:
                 " without line-broadening contributions. The spectrum could "
                 "appear distorted or empty"
             )
+            # Each line goes, unbroadened, into the bin that holds it
+            if len(freq_axis) > 1:
+                bin_i = np.rint(
+                    (peaks.ravel() - freq_axis[0]) / (freq_axis[1] - freq_axis[0])
+                ).astype(int)
+                bin_i = bin_i[(bin_i >= 0) & (bin_i < len(freq_axis))]
+                np.add.at(spec, bin_i, 1.0)
 
         if freq_broad is not None:
             if has_orient and use_pwd:
